@@ -87,6 +87,16 @@ CHECKS = {
          "Trusted: the visibility model of the virtual FS (truncate-at-open, publish-at-close, atomic replace) and the two-step stub of "
          "gffutils.create_db. Index/BED/alignment caches are only reachable at function level (no minimap2).",
          "DESIGN.md §3 C20"),
+ "C06": ("model_checking",
+         "exhaustive enumeration of worker schedules (all set partitions of the chromosome tasks of both pool stages) under a virtual process pool, plus memory-mode/keep_tmp/repetition variants and explicit read-group set orders; every schedule is a complete pipeline execution compared byte-for-byte with the threads=1 run",
+         "src.dataset_processor.ProcessPoolExecutor is replaced at run time by a deterministic pool that executes each block of a partition in one "
+         "forked worker; all Bell(n)^2 stage-1 x stage-2 partitions (n=3 quick: 25, n=4 thorough: 225) are run on a multi-chromosome world with read "
+         "groups, multi-mappers, novel transcripts and a reference that already carries IsoQuant-style ids; outputs (all files outside aux/) must be "
+         "byte-identical to the threads=1 base after dropping the command-line header. PYTHONHASHSEED is additionally swept through the real CLI "
+         "(8/48 seeds) as supporting, non-exhaustive evidence.",
+         "Trusted: equivalence of sequential block execution with concurrent workers (no shared memory, disjoint files). Set iteration order is owned "
+         "exhaustively only at the read-group seam; elsewhere the seed sweep is sampling.",
+         "DESIGN.md §3 C06"),
 }
 
 NOT_YET = {}
